@@ -14,27 +14,27 @@ import (
 
 // Cfg is the swarm configuration of one generated world.
 type Cfg struct {
-	NDocs       int     `json:"ndocs"`        // documents besides the root
-	PRef        float64 `json:"pref"`         // probability of a $ref at a schema position
-	PElemRef    float64 `json:"pelemref"`     // probability of a $ref at a parameter/response/path-item position
-	MaxDepth    int     `json:"maxdepth"`     // schema nesting depth
-	MaxNames    int     `json:"maxnames"`     // named elements per section and document
-	Keywords    []string `json:"keywords"`    // schema keywords that may hold children
-	OddNames    bool    `json:"oddnames"`     // member names with / ~ % # ? space braces quotes non-ASCII
-	Nested      bool    `json:"nested"`       // references to nested pointer targets
-	WholeDoc    bool    `json:"wholedoc"`     // bare-schema documents referenced as a whole
-	Spellings   int     `json:"spellings"`    // 0 plain, 1 mixed, 2 wild
-	Acyclic     bool    `json:"acyclic"`      // schema references only point "forward"
-	IllFounded  bool    `json:"illfounded"`   // element reference chains may loop (C04 only)
-	IDs         int     `json:"ids"`          // 0 none, 1 safe kinds, 2 all kinds incl. relative directory (C04 only), 3 colliding absolute ids (C18)
-	Siblings    bool    `json:"siblings"`     // schema $ref holders with sibling keywords
-	HTTP        bool    `json:"http"`         // allow http documents
-	RootElems   bool    `json:"rootelems"`    // root has parameters/responses sections
-	CaseTwins   bool    `json:"casetwins"`    // some definitions get a twin whose name differs in letter case only
-	ArrayDoc    bool    `json:"arraydoc"`     // one extra document whose top-level value is an array of schemas (referenced as list.json#/0 …)
-	FragIDs     bool    `json:"fragids"`      // some schemas carry a fragment-only id ("#anchor7"): re-scoping is the identity, so the id-agnostic model stays exact
-	IDScopes    bool    `json:"idscopes"`     // self-contained sub-schemas that declare an id (from a tiny pool) and refer to their own local definitions (C18 only: the model ignores id)
-	SelfIDs     bool    `json:"selfids"`      // bare-schema documents carry their own URL as id (published schemas)
+	NDocs      int      `json:"ndocs"`      // documents besides the root
+	PRef       float64  `json:"pref"`       // probability of a $ref at a schema position
+	PElemRef   float64  `json:"pelemref"`   // probability of a $ref at a parameter/response/path-item position
+	MaxDepth   int      `json:"maxdepth"`   // schema nesting depth
+	MaxNames   int      `json:"maxnames"`   // named elements per section and document
+	Keywords   []string `json:"keywords"`   // schema keywords that may hold children
+	OddNames   bool     `json:"oddnames"`   // member names with / ~ % # ? space braces quotes non-ASCII
+	Nested     bool     `json:"nested"`     // references to nested pointer targets
+	WholeDoc   bool     `json:"wholedoc"`   // bare-schema documents referenced as a whole
+	Spellings  int      `json:"spellings"`  // 0 plain, 1 mixed, 2 wild
+	Acyclic    bool     `json:"acyclic"`    // schema references only point "forward"
+	IllFounded bool     `json:"illfounded"` // element reference chains may loop (C04 only)
+	IDs        int      `json:"ids"`        // 0 none, 1 safe kinds, 2 all kinds incl. relative directory (C04 only), 3 colliding absolute ids (C18)
+	Siblings   bool     `json:"siblings"`   // schema $ref holders with sibling keywords
+	HTTP       bool     `json:"http"`       // allow http documents
+	RootElems  bool     `json:"rootelems"`  // root has parameters/responses sections
+	CaseTwins  bool     `json:"casetwins"`  // some definitions get a twin whose name differs in letter case only
+	ArrayDoc   bool     `json:"arraydoc"`   // one extra document whose top-level value is an array of schemas (referenced as list.json#/0 …)
+	FragIDs    bool     `json:"fragids"`    // some schemas carry a fragment-only id ("#anchor7"): re-scoping is the identity, so the id-agnostic model stays exact
+	IDScopes   bool     `json:"idscopes"`   // self-contained sub-schemas that declare an id (from a tiny pool) and refer to their own local definitions (C18 only: the model ignores id)
+	SelfIDs    bool     `json:"selfids"`    // bare-schema documents carry their own URL as id (published schemas)
 }
 
 // DrawCfg draws a swarm configuration.
@@ -338,6 +338,32 @@ func (g *gen) elemOrd(ord int) int {
 	return ord
 }
 
+var extNames = []string{"x-rate", "x-Cache-Hint", "x-RETRY", "x-unit", "x-Owner", "x-internal-id"}
+
+// ext decorates an inline element with up to two vendor extensions (names in mixed case, values of
+// every JSON type but null).
+func (g *gen) ext(m map[string]interface{}) map[string]interface{} {
+	if g.r.Intn(3) != 0 {
+		return m
+	}
+	for i := 0; i < 1+g.r.Intn(2); i++ {
+		g.uniq++
+		var v interface{}
+		switch g.r.Intn(4) {
+		case 0:
+			v = fmt.Sprintf("e%d", g.uniq)
+		case 1:
+			v = float64(g.uniq)
+		case 2:
+			v = g.r.Intn(2) == 0
+		default:
+			v = map[string]interface{}{"k": []interface{}{float64(g.uniq), "a"}}
+		}
+		m[extNames[g.r.Intn(len(extNames))]] = v
+	}
+	return m
+}
+
 func (g *gen) param(doc string, ord int) map[string]interface{} {
 	if g.r.Float64() < g.cfg.PElemRef {
 		if t, ok := g.pick(model.KParam, g.elemOrd(ord)); ok {
@@ -347,7 +373,7 @@ func (g *gen) param(doc string, ord int) map[string]interface{} {
 	g.uniq++
 	switch g.r.Intn(5) {
 	case 0, 1:
-		return map[string]interface{}{"name": fmt.Sprintf("q%d", g.uniq), "in": "query", "type": "string"}
+		return g.ext(map[string]interface{}{"name": fmt.Sprintf("q%d", g.uniq), "in": "query", "type": "string"})
 	case 2:
 		return map[string]interface{}{"name": fmt.Sprintf("a%d", g.uniq), "in": "query", "type": "array", "items": map[string]interface{}{"type": "string", "format": fmt.Sprintf("f%d", g.uniq)}}
 	}
@@ -365,7 +391,11 @@ func (g *gen) resp(doc string, ord int) map[string]interface{} {
 	if g.r.Intn(3) > 0 {
 		r["schema"] = g.schema(doc, 1, 1<<30, false)
 	}
-	return r
+	if g.r.Intn(5) == 0 {
+		g.uniq++
+		r["headers"] = map[string]interface{}{"X-Rate-Limit": map[string]interface{}{"type": "integer", "description": fmt.Sprintf("h%d", g.uniq)}}
+	}
+	return g.ext(r)
 }
 
 func (g *gen) pathItem(doc string, ord int) map[string]interface{} {
@@ -402,14 +432,18 @@ func (g *gen) pathItem(doc string, ord int) map[string]interface{} {
 		if g.r.Intn(4) == 0 {
 			rs["404"] = g.resp(doc, -1)
 		}
+		if g.r.Intn(4) == 0 {
+			rs["500"] = g.resp(doc, -1)
+			rs["201"] = g.resp(doc, -1)
+		}
 		op["responses"] = rs
-		pi[opn] = op
+		pi[opn] = g.ext(op)
 	}
 	if len(pi) == 0 {
 		g.uniq++
 		pi["get"] = map[string]interface{}{"operationId": fmt.Sprintf("op%d", g.uniq), "responses": map[string]interface{}{"200": g.resp(doc, -1)}}
 	}
-	return pi
+	return g.ext(pi)
 }
 
 type skel struct {
